@@ -29,11 +29,11 @@ CHECKS = {
  "C02": ("E2", "model_checking",
    "explicit-state model checking (BFS; invariant checked after every single payload and every prefix of every order)",
    "Same exploration as C01; after each single update applied on its own to the fetched state, and after every prefix of every permutation of the update sequence, every touched policy must have only family-restricted accepting terms with explicit route-filters inside the evaluated set and end in reject, and the payload may address nothing outside configuration/policy-options/policy-statement.",
-   "Same trusted base as C01; an end-to-end slice runs the real agent binary body against the fake Junos server for an emptied family and an emptied policy.", "DESIGN.md §2 E2"),
+   "Same trusted base as C01; a second sweep starts from 19 installed states the agent did not produce (foreign route-filter match types, foreign accept-all terms, terms that lost family / filters / action, no trailing reject, ...) and checks every update sent from them the same way; an end-to-end slice runs the real agent binary body against the fake Junos server for an emptied family and an emptied policy.", "DESIGN.md §2 E2"),
  "C03": ("E2", "fault_enumeration",
    "exhaustive enumeration of failed-evaluation subsets over the BFS state space + malformed-annotation sweep",
    "In every reachable configuration every subset of candidates is marked 'evaluation failed': no payload may name them and their installed form must be unchanged; deletes may only name installed, unmanaged policies. Malformed annotations are driven through the real candidate reader and the real plan.",
-   "Plan level (E2) plus the evaluation stage against a fake IRRd (E5): unknown as-set and D/E/F answers to the as-set query must make the evaluation fail, never yield a smaller set; same trusted base as C01.", "DESIGN.md §2 E2"),
+   "Plan level (E2) plus the evaluation stage against a fake IRRd (E5): unknown as-set and D/E/F answers to the as-set query must make the evaluation fail, never yield a smaller set; an end-to-end slice resets the IRRd connection mid-run with literal-prefix policies installed (nothing may be deleted, in every evaluation order); the foreign-installed-states sweep of C02 applies its C03 clauses too; same trusted base as C01.", "DESIGN.md §2 E2"),
  "C16": ("E2", "exploration",
    "bounded-exhaustive enumeration of generated running configurations against an independent selection rule",
    "Product of comment kinds x active attribute forms x extra/duplicate attributes x all attribute orders x statement bodies x names (incl. XML metacharacters), every single statement and every ordered pair of a representative subset, through the agent's real candidate reader.",
@@ -48,7 +48,7 @@ CHECKS = {
    "The oracle table is a transcription of RFC 6241 sections 7-8; open cells are listed in the evidence and not judged.", "DESIGN.md §2 E3 C09"),
  "C12": ("E3", "exploration",
    "bounded-exhaustive hello grammar through real session establishment, both exchange orders",
-   "Every hello of the grammar {base subsets} x {session-id shapes incl. 0, 2^32, duplicates, missing} x {namespace spellings} x element order x duplicate/truncated elements, in both orders of the simultaneous hello exchange; established iff well-formed, valid id and a base version in common with what the client put on the wire; version = highest common; the first request must be framed as the negotiated version requires.",
+   "Every hello of the grammar {base subsets} x {session-id shapes incl. 0, 2^32, duplicates, missing} x {namespace spellings} x element order x duplicate/truncated elements x layout (compact, pretty-printed, whitespace-padded token text, declaration + comments), in both orders of the simultaneous hello exchange; established iff well-formed, valid id and a base version in common with what the client put on the wire; version = highest common; the first request must be framed as the negotiated version requires.",
    "Hello matrix at MemTransport level plus a conforming peer on each real transport (TLS, SSH, JunosLocal) that frames as the negotiated version requires.", "DESIGN.md §2 E3 C12"),
  "C10": ("E3", "exploration",
    "bounded-exhaustive parameter x adversarial-value enumeration judged by an independent XML parser (python expat)",
@@ -56,7 +56,7 @@ CHECKS = {
    "Characters XML 1.0 cannot carry and fragments that contain the delimiter themselves are outside the alphabet.", "DESIGN.md §2 E3 C10"),
  "C13": ("E3", "exploration",
    "bounded-exhaustive rewrite neighbourhoods (all single and pairwise information-preserving rewrites at every position) with a differential oracle",
-   "21 seed messages (hellos, every reply type, rpc-errors with all leaves, get-config data for both agent readers; accepted and rejected ones) x every applicable rewrite (namespace prefix vs default, inter-element whitespace, whitespace around token-valued text, comments, attribute order, quote style, XML declaration, empty-element form) at every position, singly and in pairs (thorough: also triples of three different rewrite kinds); each rewritten message goes through the real session (and the agent's real fetch path) and must give the same acceptance and the same Debug value as its seed.",
+   "21 seed messages (hellos, every reply type, rpc-errors with all leaves, get-config data for both agent readers; accepted and rejected ones) x every applicable rewrite (namespace prefix vs default, inter-element whitespace, whitespace around token-valued text, comments, another prefix for / hoisted declaration of a namespace bound with xmlns:p, attribute order, quote style, XML declaration, empty-element form) at every position, singly and in pairs (thorough: also triples of three different rewrite kinds); each rewritten message goes through the real session (and the agent's real fetch path) and must give the same acceptance and the same Debug value as its seed.",
    "The value of <get> is the raw <data> content by design, so only acceptance is compared there.", "DESIGN.md §2 E3 C13"),
  "C14": ("E3", "exploration",
    "exhaustive one-edit mutation neighbourhoods (every offset / element / attribute / numeric field) of seed messages under a per-case watchdog",
@@ -72,11 +72,11 @@ CHECKS = {
    "Recursive set expansion is done by the (fake) IRRd as the client requests; the oracle decides membership per prefix of a finite universe (two IPv4 and two IPv6 trees) without using the ip crate's set algebra.", "DESIGN.md §2 E5 C11"),
  "C17": ("E5", "model_checking",
    "exhaustive operation sequences (all histories up to a length bound x every single-fault injection) against a fresh-connection reference",
-   "All sequences of up to 3 (thorough 4) expressions over an alphabet of 8 on one evaluator / IRR connection, without faults and with one injected error answer (D, E, F) at every query index of every member; every member's result must equal the result of the same expression, with the same fault, on a fresh connection; the evaluator must remain usable after failures.",
+   "All sequences of up to 3 (thorough 4) expressions over an alphabet of 8 on one evaluator / IRR connection, without faults and with one injected error answer (D, E, F) at every query index of every member; every member's result must equal the result of the same expression, with the same fault, on a fresh connection; the evaluator must remain usable after failures. Repetition histories (X evaluated k times, then every Y; X also over expressions that fail after other resolvers ran; with an error answer to every occurrence of each query) reach state that accumulates or is reset only on success.",
    "Connection loss mid-stream is not injected (irrc spins on EOF: dependency behaviour recorded in DESIGN).", "DESIGN.md §2 E5 C17"),
  "C04": ("E6", "fault_enumeration",
    "exhaustive fault enumeration: every fault kind at every position of the agent's request sequence, real agent end to end",
-   "The real agent (bgpfu_junos_agent::main, one-shot, local target through the stand-in cli of hook H2) runs against a fake Junos NETCONF server and a fake IRRd for N = 0..3 (thorough 0..4) managed policies; one fault per run at every position of open, get-config x2, load x N, commit, close-configuration, close-session and of every kind (rpc-error, warning+error, malformed reply, unknown message-id, re-used message-id, close before the reply, close after the reply, failing load reply delayed behind later loads). From the server's request log and the exit status: commit only after open and all N loads were positively acknowledged, no commit after a failed step, exit 0 iff every step was acknowledged, termination within the watchdog.",
+   "The real agent (bgpfu_junos_agent::main, one-shot, local target through the stand-in cli of hook H2) runs against a fake Junos NETCONF server and a fake IRRd for N = 0..3 (thorough 0..4) managed policies; one fault per run at every position of open, get-config x2, load x N, commit, close-configuration, close-session and of every kind (rpc-error, warning+error, malformed reply, unknown message-id, re-used message-id, close before the reply, close after the reply, failing load reply delayed behind later loads); a slice with N = 1 repeats every position through the agent's remote (TLS) target. From the server's request log and the exit status: commit only after open and all N loads were positively acknowledged, no commit after a failed step, exit 0 iff every step was acknowledged, termination within the watchdog.",
    "The fake Junos implements the Junos XML protocol as documented; the agent is built inside the harness workspace from /repo's crates (same main body as the shipped binary).", "DESIGN.md §2 E6 C04"),
  "C15": ("E6", "fault_enumeration",
    "enumeration of unevaluable-policy kinds x policy sets x observed evaluation orders, real agent end to end",
@@ -92,7 +92,7 @@ CHECKS = {
    "Real-time watchdog with three orders of magnitude of slack over loopback latency.", "DESIGN.md §2 E4 C07"),
  "C20": ("E4", "exploration",
    "exhaustive configuration matrix (transport x level x subscriber wiring x filter x outcome x secret) with an encoding search over the complete captured log",
-   "The client runs in a child process with a real fmt subscriber wired as the crate's examples do (try_init, which installs the log bridge), as a plain subscriber, and with EnvFilter directives as the agent does, for SSH passwords and TLS RSA / EC client keys, on success, authentication failure, a keyboard-interactive-only server and a refused connection; the real agent runs with the remote target (keys by path, PEM bundles, wrong PEM kinds, RUST_LOG directives). Every byte the child prints is searched for the secret in clear, Debug-escaped, hex, base64 and byte-list encodings (for keys: every window of the secret part of the DER).",
+   "The client runs in a child process with a real fmt subscriber wired as the crate's examples do (try_init, which installs the log bridge), as a plain subscriber, and with EnvFilter directives as the agent does, for SSH passwords and TLS RSA / EC client keys, (including values with surrounding blanks / a trailing newline), on success, authentication failure, a keyboard-interactive-only server and a refused connection; the agent also with PEM bundles and 11 damaged key files; the real agent runs with the remote target (keys by path, PEM bundles, wrong PEM kinds, RUST_LOG directives). Every byte the child prints is searched for the secret in clear, Debug-escaped, hex, base64 and byte-list encodings (for keys: every window of the secret part of the DER).",
    "Only the listed encodings are searched; the fake peers live in the parent process so their logging is not captured.", "DESIGN.md §2 E4 C20"),
 }
 
